@@ -154,7 +154,7 @@ func genDatum() interface{} {
 	case r < 1:
 		return nil
 	case r < 45:
-		t := structTypes[[]int{0, 1, 2, 0, 1, 2, 4, 5}[rng.Intn(8)]] // S4 (whose bad tag poisons every lookup) only rarely
+		t := structTypes[[]int{0, 1, 2, 0, 1, 2, 4, 5, 6}[rng.Intn(9)]] // S4 (whose bad tag poisons every lookup) only rarely
 		if rng.Intn(25) == 0 {
 			t = structTypes[3]
 		}
